@@ -71,6 +71,9 @@ type Loaded struct {
 type mapImporter map[string]*types.Package
 
 func (m mapImporter) Import(path string) (*types.Package, error) {
+	if path == "unsafe" {
+		return types.Unsafe, nil
+	}
 	if p, ok := m[path]; ok {
 		return p, nil
 	}
@@ -78,7 +81,13 @@ func (m mapImporter) Import(path string) (*types.Package, error) {
 }
 
 // Load parses and type-checks the program. An error here is a generator bug, never a verdict.
-func Load(p *Program) (*Loaded, error) {
+func Load(p *Program) (*Loaded, error) { return LoadOrder(p, false) }
+
+// LoadOrder is Load with control over the order in which the files of a package are added to
+// the FileSet. go/packages parses files concurrently, so which file receives the lower position
+// range is a scheduling accident of the loader; reverseParse gives later-listed files the LOWER
+// positions while pass.Files keeps the listed order.
+func LoadOrder(p *Program, reverseParse bool) (*Loaded, error) {
 	fset := token.NewFileSet()
 	imp := mapImporter{}
 	ld := &Loaded{Fset: fset, By: map[string]*packages.Package{}}
@@ -88,16 +97,21 @@ func Load(p *Program) (*Loaded, error) {
 		if dir == "" {
 			dir = pk.Path
 		}
-		var files []*ast.File
-		var names []string
-		for _, f := range pk.Files {
+		files := make([]*ast.File, len(pk.Files))
+		names := make([]string, len(pk.Files))
+		for k := range pk.Files {
+			i := k
+			if reverseParse {
+				i = len(pk.Files) - 1 - k
+			}
+			f := pk.Files[i]
 			fn := Root + dir + "/" + f.Name
 			af, err := parser.ParseFile(fset, fn, f.Src, parser.ParseComments)
 			if err != nil {
 				return nil, fmt.Errorf("parse %s: %v", fn, err)
 			}
-			files = append(files, af)
-			names = append(names, fn)
+			files[i] = af
+			names[i] = fn
 		}
 		info := &types.Info{
 			Types:        map[ast.Expr]types.TypeAndValue{},
@@ -122,6 +136,9 @@ func Load(p *Program) (*Loaded, error) {
 			Types:   tp, Fset: fset, Syntax: files, TypesInfo: info, TypesSizes: sizes,
 		}
 		for _, ip := range tp.Imports() {
+			if ip.Path() == "unsafe" {
+				continue // no package to analyse, no facts: as in the real drivers' vet mode
+			}
 			dep, ok := ld.By[ip.Path()]
 			if !ok {
 				return nil, fmt.Errorf("%s imports %s which is not loaded before it", pk.Path, ip.Path())
